@@ -295,14 +295,14 @@ def gen_args(draw, g, srt, d, wrong=False):
 
 def gen_lambda(draw, g, d, ret):
     """-> (lambda node, sort). Body sees the defining scopes (closure) plus its parameters."""
-    shape = draw(st.sampled_from(["plain", "plain", "default", "splat_last", "splat_first", "zero"]))
+    shape = draw(st.sampled_from(["plain", "plain", "default", "splat_last", "splat_first", "zero", "splat_default", "default_splat"]))
     params = []
     pool = list(NAMES)
     names = draw(st.permutations(pool))[:3]
     # a parameter default is evaluated at call time in the DEFINING scope (observed: it cannot see earlier
     # parameters), so it is generated before the parameter scope is opened
-    default_expr = gen_int(draw, g, 1) if shape == "default" else None
-    if default_expr is not None and _mentions(default_expr, set(names[:2])):
+    default_expr = gen_int(draw, g, 1) if shape in ("default", "splat_default", "default_splat") else None
+    if default_expr is not None and _mentions(default_expr, set(names[:3])):
         # a default that mentions a name which is also a parameter of the same lambda: which binding it
         # means is not documented (observed: the outer one, looked up at call time) - not generated
         default_expr = ["int", 1]
@@ -323,6 +323,23 @@ def gen_lambda(draw, g, d, ret):
         params.append([names[1], default_expr, False])
         g.declare(names[1], "int")
         arity = (1, 1, False)
+    elif shape == "splat_default":
+        # \a, ...r, b = D: the default applies only when the call has no value left for b
+        params.append([names[0], None, False])
+        g.declare(names[0], "int")
+        params.append([names[1], None, True])
+        g.declare(names[1], "list")
+        params.append([names[2], default_expr, False])
+        g.declare(names[2], "int")
+        arity = (1, 1, True)
+    elif shape == "default_splat":
+        params.append([names[0], None, False])
+        g.declare(names[0], "int")
+        params.append([names[1], default_expr, False])
+        g.declare(names[1], "int")
+        params.append([names[2], None, True])
+        g.declare(names[2], "list")
+        arity = (1, 1, True)
     elif shape == "splat_last":
         params.append([names[0], None, False])
         g.declare(names[0], "int")
